@@ -490,7 +490,7 @@ def apply_subst(toks: List[Tok], old: str, new: str, rep: Report, fn: str) -> Li
     hits = 0
     while i < len(toks):
         if seq_at(toks, i, pat):
-            out.append(syn(new, toks[i].pos, toks[i].ws))
+            out.append(_stop(syn(new, toks[i].pos, toks[i].ws)))      # substituted code is code, not a binding generated by a loop rule
             i += len(pat)
             hits += 1
             continue
@@ -656,11 +656,37 @@ def rule_R7(toks: List[Tok], k: int, rep: Report, fn: str) -> List[Tok]:
             any(t.kind == "life" for t in body):
         raise Undecided(f"R7: loop body of for #{k} in {fn} uses continue/labels")
     txt = compact(head)
+    m26 = re.match(r"(\w+) in (\w+)\.split_inclusive\(\|(\w+)\|", txt)
+    if m26 and is_p(head[-1], ")"):
+        # R26: for X in V.split_inclusive(|N| P): the maximal pieces of V that end with (and include) an element satisfying P, in
+        # order; a last piece without such an element if V does not end with one; nothing for an empty V (the definition of
+        # <[T]>::split_inclusive).  P is the /repo text with the closure parameter N replaced by a reference to the element.
+        x, v, n = m26.group(1), m26.group(2), m26.group(3)
+        bars = [i for i, t in enumerate(head) if is_p(t, "|")]
+        if len(bars) != 2 or bars[1] != bars[0] + 2:
+            raise Undecided(f"R26: closure of split_inclusive in {fn} is not of the form |n| P")
+        pred = head[bars[1] + 1:len(head) - 1]
+        if any(t.kind == "ident" and t.text == v for t in body):
+            pass        # reading V inside the body is harmless (V is borrowed immutably by the iterator; rustc checks that)
+        pos = toks[kw].pos
+        s0, e0 = f"si_start__{k}", f"si_end__{k}"
+        elem = f"(&{v}[{e0}])"
+        pred2 = [syn(elem, t.pos, t.ws) if (t.kind == "ident" and t.text == n) else t for t in pred]
+        ws = toks[kw].ws
+        new = [syn(f"let mut {s0}: usize = 0;", pos, ws), Tok("ident", "while", pos, " "), syn(f"{s0} < {v}.len()", pos, " "),
+               Tok("punct", "{", toks[bo].pos, " "), syn(f"let mut {e0}: usize = {s0};", toks[bo].pos, " "),
+               Tok("ident", "while", pos, " "), syn(f"{e0} < {v}.len() && !(", pos, " ")] + pred2 + \
+              [syn(")", pos, ""), Tok("punct", "{", pos, " "), syn(f"{e0} += 1;", pos, " "), Tok("punct", "}", pos, " "),
+               syn(f"if {e0} < {v}.len() {{ {e0} += 1; }} let {x} = &{v}[{s0}..{e0}];", toks[bo].pos, " ")] + body + \
+              [syn(f"{s0} = {e0};", toks[bc].pos, " "), toks[bc]]
+        rep.rule("R26 for-in-split_inclusive(|n| P) loop -> index loop over the maximal pieces ending with a P element")
+        return toks[:kw] + new + toks[bc + 1:]
     m = re.fullmatch(r"\((\w+),&(\w+)\)in ([\w.]+)\.iter\(\)\.enumerate\(\)", txt)
     m_enum = m is not None
     mw = None
     ms = None
     mc = None
+    mp = None
     pos = toks[kw].pos
     idx = f"idx__{k}"
     pre = f"let mut {idx}: usize = 0;"
@@ -674,6 +700,12 @@ def rule_R7(toks: List[Tok], k: int, rep: Report, fn: str) -> List[Tok]:
         mw = re.fullmatch(r"(\w+) in (\w+)\.windows\((\w+)\)", txt)
         ms = re.fullmatch(r"(\w+) in (\w+)\.into_iter\(\)\.skip\((\w+)\)", txt)
         mc = None if m else re.fullmatch(r"&(\w+) in ([\w.]+\(\))", txt)      # (`v.iter()` is the plain R7 case above)
+        mp = None if (m or mt or mw or ms or mc) else re.fullmatch(r"&(\w+) in (\w+)", txt)
+        if mp:
+            # R27: for &X in S with S a slice (`&[T]`: rustc checks the index expression in the generated unit): the elements in
+            # order, by value -- the same loop as `for &X in S.iter()`
+            m = mp
+            txt = "&" + txt[1:]
         if mt:
             # for (a, _, c) in &V: a tuple pattern against `&T` binds references to the fields (default binding modes), as does `let (..) = &V[i]`
             x, v = "(" + mt.group(1).replace(",", ", ") + ")", mt.group(2)
@@ -713,6 +745,8 @@ def rule_R7(toks: List[Tok], k: int, rep: Report, fn: str) -> List[Tok]:
     rep.rule("R23 for-in-windows(n) loop -> index while loop" if (not m_enum and mw) else "R7 for-in-iter loop -> index while loop")
     if not m_enum and ms:
         rep.rule("R24 for-in-into_iter().skip(n) loop -> index while loop starting at n")
+    if not m_enum and mp:
+        rep.rule("R27 for-&x-in-slice loop -> index while loop")
     if not m_enum and mc:
         rep.rule("R25 for-&x-in-call() loop over a returned slice -> index while loop")
     return toks[:kw] + new + toks[bc + 1:]
@@ -1147,7 +1181,8 @@ def inject_loops(toks: List[Tok], fs: FnSpec, fnq: str) -> List[Tok]:
         for g in ent.get("body_start", []):
             ins_after.setdefault(bs, []).append(syn(g, toks[bo].pos, "\n", tag=f"{fnq}.loop{k}.body_start"))
         be = bc
-        while be - 1 > bo and toks[be - 1].kind == "syn" and getattr(toks[be - 1], "tag", None) is None:
+        while be - 1 > bo and toks[be - 1].kind == "syn" and getattr(toks[be - 1], "tag", None) is None \
+                and not getattr(toks[be - 1], "stop", False):
             be -= 1      # stay in front of the counter increment that rule R7 generated
         for g in ent.get("body_end", []):
             ins_before.setdefault(be, []).append(syn(g, toks[bc].pos, "\n", tag=f"{fnq}.loop{k}.body_end"))
